@@ -17,13 +17,17 @@
        whose timeline (reference semantics of the target format) is within the stated bound of the source file's timeline
        (reference semantics of the source format), columns moved by the converter's own shift argument:
            -> Quaver: 1 ms, bpm exact      -> osu!: 1 ms, bpm within 2e-9 (1 + B)
-           -> StepMania: exact inside c03_domb (the exact domain of C03)   -> BMS: exact on the snap grid inside write_dom.
+           -> StepMania: exact inside c03_domb (the exact domain of C03)
+           -> BMS: inside write_dom every start, end and tempo point within 1/192 beat at the local tempo (res_of FBms, by
+              C05_bms_write_timeline); exact on the snap grid (the _exact_on_grid forms).
        Inclusion "converted chart is in the writer's domain" is PROVED for Quaver targets (typed metadata, columns >= 0;
        for O2Jam sources also the columns) and is an explicit decidable hypothesis for osu! / StepMania / BMS targets.
-   PARTIAL (named _partial, the missing lemma stated at the theorem):
-     * StepMania / BMS SOURCES: the reader theorems of C02 / C04 do not determine the chart's tempo list (it is reseat's):
-       hypothesis sm_tempo_same / bms_tempo_same - this is exactly where the known finding tempo-reseated lives;
-     * BMS TARGETS: composed for the exact regime (bms_on_grid) only; C05's off-grid bound time_rt is not translated;
+     ALL 16 pairs are full.  StepMania / BMS SOURCES carry one more decidable guard on the TEXT: every tempo change on a measure
+     line (sm_tempo_on_lines / bms_tempo_on_lines; C02_sm_read_tempo_list_on_lines / C04_bms_read_tempo_list_on_lines then
+     determine the chart's tempo list).  Tempo changes OFF the measure lines are outside these theorems on purpose: there the
+     reader reseats them and the written file's tempo differs - the known finding tempo-reseated (a defect of the library, open).
+   GENERAL forms kept under their _partial names (they say more: any text in the reader's domain, per chart under the decidable
+   sm_tempo_same / bms_tempo_same 'the chart's tempo list is the file's'): sm->osu, sm->qua, sm->bms, bms->osu, bms->qua, bms->sm.
    NOT composed for any pair: the metadata path (C08's subject) - the written chart has the converted ROWS and arbitrary
    other attributes.  The runner (Corr/RunC09.v) decides the property on the implementation's files for every case. *)
 From Coq Require Import ZArith QArith Qround Qabs List Bool Permutation.
@@ -366,10 +370,94 @@ Theorem C09_o2j_to_sm_pipeline :
                   timeline_close 0 0 (tl_of_sm_chart dt dc) (tl_shift (conv_shift d sz) (tl_of_omap md))))).
 Proof. exact o2j_to_sm_pipeline. Qed.
 
-(* StepMania -> osu!, per chart.  PARTIAL in one respect: C02_sm_read_denotes says of the chart's tempo LIST only that every tempo
-   change of the file is in it (it is TimingMap.reseat()'s list); missing lemma: 'when every tempo change lies on a measure line the
-   list is exactly the file's tempo changes'.  Hence the decidable hypothesis sm_tempo_same ds c (false exactly on the known
-   finding tempo-reseated). *)
+(* StepMania -> osu!, per chart, FULL for texts in c02_domb whose #BPMS beats are multiples of 4 (sm_tempo_on_lines, decidable on the
+   text): by C02_sm_read_tempo_list_on_lines the chart's tempo list IS the denoted one.  Tempo changes off the measure lines are
+   reseated by the reader: the known finding tempo-reseated (general case: C09_sm_to_osu_pipeline_partial). *)
+Theorem C09_sm_to_osu_pipeline :
+  forall (n : Z) (d : conv_desc) (txt : list Z) (a : cargs) (oracle : chart) (sz : Z),
+       In (n, d) converters ->
+       SMReadDom.c02_domb txt = true ->
+       SMReadDom.sm_tempo_on_lines txt = true ->
+       a_shift a = inject_Z sz ->
+       forall (p : osu_rest) (ut ua : Text.text) (B : Q),
+       exists (ds : SMSpec.dfile) (s : SM.smset),
+         SMSpec.sm_denote txt = Some ds /\
+         SM.sm_read SMProofs.live_conf SM.current txt = Some s /\
+         (forall (k : nat) (dc : SMSpec.dchart) (c : SM.smchart),
+          nth_error (SMSpec.d_charts ds) k = Some dc ->
+          nth_error (SM.s_maps s) k = Some c ->
+          forall (sm : meta) (cs : chart),
+          rows_of_cchart cs = Some (rows_of_smchart c) ->
+          chart_wfb d a sm k cs oracle = true ->
+          exists (out : chart) (r' : rows),
+            conv_chart d a sm k cs oracle = Some out /\
+            rows_of_cchart out = Some r' /\
+            (OsuWhole.wdom6 (build_osu r' p) ut ua = true ->
+             (forall b : Q * Q, In b (r_bpms r') -> Qabs (snd b) <= B) ->
+             exists (text : list Text.text) (dt : OsuSpec.dchart),
+               OsuWhole.written6 (build_osu r' p) ut ua = Some text /\
+               OsuSpec.wf_osu_text text = true /\
+               OsuSpec.osu_denote text = Some dt /\
+               timeline_close 1 (OSU_BPM_EPS B) (tl_of_osu dt) (tl_shift (conv_shift d sz) (tl_of_sm_chart ds dc)))).
+Proof. exact sm_to_osu_lines_pipeline. Qed.
+
+(* StepMania -> Quaver, per chart (as above). *)
+Theorem C09_sm_to_qua_pipeline :
+  forall (n : Z) (d : conv_desc) (txt : list Z) (a : cargs) (oracle : chart) (sz : Z),
+       In (n, d) converters ->
+       SMReadDom.c02_domb txt = true ->
+       SMReadDom.sm_tempo_on_lines txt = true ->
+       a_shift a = inject_Z sz ->
+       forall qmeta : list Qua.ytree,
+       QuaSpec.meta_okb false qmeta = true ->
+       exists (ds : SMSpec.dfile) (s : SM.smset),
+         SMSpec.sm_denote txt = Some ds /\
+         SM.sm_read SMProofs.live_conf SM.current txt = Some s /\
+         (forall (k : nat) (dc : SMSpec.dchart) (c : SM.smchart),
+          nth_error (SMSpec.d_charts ds) k = Some dc ->
+          nth_error (SM.s_maps s) k = Some c ->
+          forall (sm : meta) (cs : chart),
+          rows_of_cchart cs = Some (rows_of_smchart c) ->
+          chart_wfb d a sm k cs oracle = true ->
+          exists (out : chart) (r' : rows),
+            conv_chart d a sm k cs oracle = Some out /\
+            rows_of_cchart out = Some r' /\
+            (cols_nonneg r' = true ->
+             QuaSpec.wf_chartb false (build_qua r' qmeta) = true /\
+             (exists (doc : Qua.ytree) (e : QuaSpec.den),
+                Qua.Live.write (build_qua r' qmeta) = Some doc /\
+                QuaSpec.wf_qua_docb doc = true /\
+                QuaSpec.qua_denote doc = Some e /\
+                timeline_close 1 0 (tl_of_qua e) (tl_shift (conv_shift d sz) (tl_of_sm_chart ds dc))))).
+Proof. exact sm_to_qua_lines_pipeline. Qed.
+
+(* StepMania -> BMS, per chart: reader as above; writer inside write_dom, every time within 1/192 beat at the local tempo. *)
+Theorem C09_sm_to_bms_pipeline :
+  forall (n : Z) (d : conv_desc) (txt : list Z) (a : cargs) (oracle : chart) (sz : Z),
+       In (n, d) converters ->
+       SMReadDom.c02_domb txt = true ->
+       SMReadDom.sm_tempo_on_lines txt = true ->
+       a_shift a = inject_Z sz ->
+       forall (mk : Z) (lay : BMSSpec.slayout) (dflt : list Z) (p : bms_rest) (rd : Q -> list Z),
+       exists (ds : SMSpec.dfile) (s : SM.smset),
+         SMSpec.sm_denote txt = Some ds /\
+         SM.sm_read SMProofs.live_conf SM.current txt = Some s /\
+         (forall (k : nat) (dc : SMSpec.dchart) (c : SM.smchart),
+          nth_error (SMSpec.d_charts ds) k = Some dc ->
+          nth_error (SM.s_maps s) k = Some c ->
+          forall (sm : meta) (cs : chart),
+          rows_of_cchart cs = Some (rows_of_smchart c) ->
+          chart_wfb d a sm k cs oracle = true ->
+          exists (out : chart) (r' : rows),
+            conv_chart d a sm k cs oracle = Some out /\
+            rows_of_cchart out = Some r' /\
+            bms_target_bound mk lay dflt p rd r' (tl_shift (conv_shift d sz) (tl_of_sm_chart ds dc))).
+Proof. exact sm_to_bms_lines_pipeline. Qed.
+
+(* StepMania -> osu!, per chart, the GENERAL form (kept because it says more than the full theorem above: any text in c02_domb,
+   tempo changes anywhere): C02_sm_read_denotes says of the chart's tempo LIST only that every tempo change of the file is in it
+   (it is TimingMap.reseat()'s list), so the statement is per chart under the decidable hypothesis sm_tempo_same ds c - the
+   chart's list IS the file's.  It is false exactly on the known finding tempo-reseated, which is a defect, not a missing lemma. *)
 Theorem C09_sm_to_osu_pipeline_partial :
   forall (n : Z) (d : conv_desc) (txt : SMText.text) (a : cargs) (oracle : chart) (sz : Z) 
          (p : osu_rest) (ut ua : Text.text) (B : Q),
@@ -428,8 +516,102 @@ Theorem C09_sm_to_qua_pipeline_partial :
                 timeline_close 1 0 (tl_of_qua e) (tl_shift (conv_shift d sz) (tl_of_sm_chart ds dc))))).
 Proof. exact sm_to_qua_pipeline. Qed.
 
+(* BMS -> osu!, FULL for texts whose tempo objects sit at position 0 of their measure (bms_tempo_on_lines, decidable on the text):
+   by C04_bms_read_tempo_list_on_lines the read RETURNS and the chart's tempo list IS the denoted one.  Off the measure lines:
+   tempo-reseated (general case: C09_bms_to_osu_pipeline_partial). *)
+Theorem C09_bms_to_osu_pipeline :
+  forall (n : Z) (d : conv_desc) (lay : BMSSpec.slayout) (mk : Z) (lines : list (list Z)) 
+         (a : cargs) (sm : meta) (k : nat) (oracle : chart) (sz : Z),
+       In (n, d) converters ->
+       BMSSpec.layout_ok mk lay = true ->
+       BMSSpec.wf_bms_lines lay lines = true ->
+       BMSSpec.read_guards C04.tbl lines = true ->
+       BMSGuards.bms_tempo_on_lines lines = true ->
+       a_shift a = inject_Z sz ->
+       forall (p : osu_rest) (ut ua : Text.text) (B : Q),
+       exists (c : BMS.bms_chart) (ds : BMSSpec.denotation),
+         BMS.bms_read C04.tbl lay mk lines = Some c /\
+         BMSSpec.bms_denote lay lines = Some ds /\
+         (forall cs : chart,
+          rows_of_cchart cs = Some (rows_of_bms c) ->
+          chart_wfb d a sm k cs oracle = true ->
+          exists (out : chart) (r' : rows),
+            conv_chart d a sm k cs oracle = Some out /\
+            rows_of_cchart out = Some r' /\
+            (OsuWhole.wdom6 (build_osu r' p) ut ua = true ->
+             (forall b : Q * Q, In b (r_bpms r') -> Qabs (snd b) <= B) ->
+             exists (text : list Text.text) (dt : OsuSpec.dchart),
+               OsuWhole.written6 (build_osu r' p) ut ua = Some text /\
+               OsuSpec.wf_osu_text text = true /\
+               OsuSpec.osu_denote text = Some dt /\
+               timeline_close 1 (OSU_BPM_EPS B) (tl_of_osu dt) (tl_shift (conv_shift d sz) (tl_of_bms ds)))).
+Proof. exact bms_to_osu_lines_pipeline. Qed.
+
+(* BMS -> Quaver (as above). *)
+Theorem C09_bms_to_qua_pipeline :
+  forall (n : Z) (d : conv_desc) (lay : BMSSpec.slayout) (mk : Z) (lines : list (list Z)) 
+         (a : cargs) (sm : meta) (k : nat) (oracle : chart) (sz : Z),
+       In (n, d) converters ->
+       BMSSpec.layout_ok mk lay = true ->
+       BMSSpec.wf_bms_lines lay lines = true ->
+       BMSSpec.read_guards C04.tbl lines = true ->
+       BMSGuards.bms_tempo_on_lines lines = true ->
+       a_shift a = inject_Z sz ->
+       forall qmeta : list Qua.ytree,
+       QuaSpec.meta_okb false qmeta = true ->
+       exists (c : BMS.bms_chart) (ds : BMSSpec.denotation),
+         BMS.bms_read C04.tbl lay mk lines = Some c /\
+         BMSSpec.bms_denote lay lines = Some ds /\
+         (forall cs : chart,
+          rows_of_cchart cs = Some (rows_of_bms c) ->
+          chart_wfb d a sm k cs oracle = true ->
+          exists (out : chart) (r' : rows),
+            conv_chart d a sm k cs oracle = Some out /\
+            rows_of_cchart out = Some r' /\
+            (cols_nonneg r' = true ->
+             QuaSpec.wf_chartb false (build_qua r' qmeta) = true /\
+             (exists (doc : Qua.ytree) (e : QuaSpec.den),
+                Qua.Live.write (build_qua r' qmeta) = Some doc /\
+                QuaSpec.wf_qua_docb doc = true /\
+                QuaSpec.qua_denote doc = Some e /\
+                timeline_close 1 0 (tl_of_qua e) (tl_shift (conv_shift d sz) (tl_of_bms ds))))).
+Proof. exact bms_to_qua_lines_pipeline. Qed.
+
+(* BMS -> StepMania (as above; writer exact inside c03_domb). *)
+Theorem C09_bms_to_sm_pipeline :
+  forall (n : Z) (d : conv_desc) (lay : BMSSpec.slayout) (mk : Z) (lines : list (list Z)) 
+         (a : cargs) (sm : meta) (k : nat) (oracle : chart) (sz : Z),
+       In (n, d) converters ->
+       BMSSpec.layout_ok mk lay = true ->
+       BMSSpec.wf_bms_lines lay lines = true ->
+       BMSSpec.read_guards C04.tbl lines = true ->
+       BMSGuards.bms_tempo_on_lines lines = true ->
+       a_shift a = inject_Z sz ->
+       forall p : sm_rest,
+       exists (c : BMS.bms_chart) (ds : BMSSpec.denotation),
+         BMS.bms_read C04.tbl lay mk lines = Some c /\
+         BMSSpec.bms_denote lay lines = Some ds /\
+         (forall cs : chart,
+          rows_of_cchart cs = Some (rows_of_bms c) ->
+          chart_wfb d a sm k cs oracle = true ->
+          exists (out : chart) (r' : rows),
+            conv_chart d a sm k cs oracle = Some out /\
+            rows_of_cchart out = Some r' /\
+            (SMWriteWholeFile.c03_domb (build_sm r' p) = true ->
+             distinct_offs (r_bpms r') ->
+             exists toks : list SM.tok,
+               SM.sm_write SMProofs.live_conf SM.current (build_sm r' p) = Some toks /\
+               (forall txt : SMText.text,
+                SM.match_toks 0 toks txt = true ->
+                exists (dt : SMSpec.dfile) (dc : SMSpec.dchart),
+                  SMSpec.sm_denote txt = Some dt /\
+                  SMSpec.d_charts dt = [dc] /\
+                  timeline_close 0 0 (tl_of_sm_chart dt dc) (tl_shift (conv_shift d sz) (tl_of_bms ds))))).
+Proof. exact bms_to_sm_lines_pipeline. Qed.
+
 (* BMS -> osu!.  Reader C04_bms_read_text (layout_ok, wf_bms_lines, read_guards, and the read returned: C04_bms_read_returns says when).
-   PARTIAL like StepMania: C04 says nothing of the tempo list (reseat); hypothesis bms_tempo_same ds c. *)
+   The GENERAL form, kept like StepMania's: any text whose read returned, tempo objects anywhere, under bms_tempo_same ds c
+   (false exactly on the known finding tempo-reseated). *)
 Theorem C09_bms_to_osu_pipeline_partial :
   forall (n : Z) (d : conv_desc) (lay : BMSSpec.slayout) (mk : Z) (lines : list (list Z)) 
          (c : BMS.bms_chart) (a : cargs) (sm : meta) (k : nat) (oracle : chart) (sz : Z),
@@ -520,10 +702,77 @@ Theorem C09_bms_to_sm_pipeline_partial :
                   timeline_close 0 0 (tl_of_sm_chart dt dc) (tl_shift (conv_shift d sz) (tl_of_bms ds))))).
 Proof. exact bms_to_sm_pipeline. Qed.
 
-(* osu! -> BMS.  Writer C05_bms_write_denotes inside write_dom; the timeline statement is composed for the EXACT regime only
-   (bms_on_grid: every start and end on the snap grid of its tempo change, where C05 gives equality); off the grid C05's bound
-   (1/192 beat of the tempo in force, time_rt) is not yet translated into timeline_close_by: missing lemma 'time_rt -> res_of FBms'. *)
-Theorem C09_osu_to_bms_pipeline_partial :
+(* osu! -> BMS, FULL inside C05's write_dom of the converted chart: by C05_bms_write_timeline every start, end and tempo point of the
+   written file is within bms_res = res_of FBms (1/192 beat at the local tempo, bl_near over the tempo points of the chart
+   written - which are the source's, closeness 0) of the source file's; exact on the snap grid: C09_osu_to_bms_on_grid_exact. *)
+Theorem C09_osu_to_bms_pipeline :
+  forall (n : Z) (d : conv_desc) (lines : list Text.text) (a : cargs) (sm : meta) (k : nat) 
+         (oracle : chart) (sz mk : Z) (lay : BMSSpec.slayout) (dflt : list Z) (p : bms_rest) 
+         (rd : Q -> list Z),
+       In (n, d) converters ->
+       OsuSpec.wf_read_text lines = true ->
+       OsuSpec.strict_read_text lines = true ->
+       a_shift a = inject_Z sz ->
+       exists (dsrc : OsuSpec.dchart) (c : Osu.chart),
+         OsuSpec.osu_denote lines = Some dsrc /\
+         Osu.osu_read lines = Some c /\
+         (forall cs : chart,
+          rows_of_cchart cs = Some (rows_of_osu c) ->
+          chart_wfb d a sm k cs oracle = true ->
+          exists (out : chart) (r' : rows),
+            conv_chart d a sm k cs oracle = Some out /\
+            rows_of_cchart out = Some r' /\
+            bms_target_bound mk lay dflt p rd r' (tl_shift (conv_shift d sz) (tl_of_osu dsrc))).
+Proof. exact osu_to_bms_bound_pipeline. Qed.
+
+(* Quaver -> BMS (as above). *)
+Theorem C09_qua_to_bms_pipeline :
+  forall (n : Z) (d : conv_desc) (doc : Qua.ytree) (a : cargs) (sm : meta) (k : nat) 
+         (oracle : chart) (sz mk : Z) (lay : BMSSpec.slayout) (dflt : list Z) (p : bms_rest) 
+         (rd : Q -> list Z),
+       In (n, d) converters ->
+       QuaSpec.wf_docb doc = true ->
+       a_shift a = inject_Z sz ->
+       exists (c : Qua.chart) (e : QuaSpec.den) (rA : rows),
+         Qua.Live.read doc = Some c /\
+         QuaSpec.qua_denote doc = Some e /\
+         rows_of_qua c = Some rA /\
+         (forall cs : chart,
+          rows_of_cchart cs = Some rA ->
+          chart_wfb d a sm k cs oracle = true ->
+          exists (out : chart) (r' : rows),
+            conv_chart d a sm k cs oracle = Some out /\
+            rows_of_cchart out = Some r' /\
+            bms_target_bound mk lay dflt p rd r' (tl_shift (conv_shift d sz) (tl_of_qua e))).
+Proof. exact qua_to_bms_bound_pipeline. Qed.
+
+(* O2Jam -> BMS, per difficulty (as above). *)
+Theorem C09_o2j_to_bms_pipeline :
+  forall (n : Z) (d : conv_desc) (f : O2JSpec.ofile) (trail : list Z) (a : cargs) (sm : meta) 
+         (oracle : chart) (sz mk : Z) (lay : BMSSpec.slayout) (dflt : list Z) (p : bms_rest) 
+         (rd : Q -> list Z),
+       Tables.c07.layout = O2JSpec.ref_layout ->
+       In (n, d) converters ->
+       O2JSpec.wf_file f = true ->
+       a_shift a = inject_Z sz ->
+       exists o dn : O2J.oset,
+         O2J.read_fixed (O2JSpec.encode_file f ++ trail) = Some o /\
+         O2JSpec.ojn_denote f = Some dn /\
+         (forall (k : nat) (mo md : O2J.omap),
+          nth_error (O2J.os_maps o) k = Some mo ->
+          nth_error (O2J.os_maps dn) k = Some md ->
+          forall cs : chart,
+          rows_of_cchart cs = Some (rows_of_omap mo) ->
+          chart_wfb d a sm k cs oracle = true ->
+          exists (out : chart) (r' : rows),
+            conv_chart d a sm k cs oracle = Some out /\
+            rows_of_cchart out = Some r' /\
+            bms_target_bound mk lay dflt p rd r' (tl_shift (conv_shift d sz) (tl_of_omap md))).
+Proof. exact o2j_to_bms_bound_pipeline. Qed.
+
+(* osu! -> BMS, the EXACT regime (says more than the full theorem above where it applies): inside write_dom and with every start and
+   end on the snap grid of its tempo change (bms_on_grid, decidable) the written file's timeline EQUALS the source's (closeness 0). *)
+Theorem C09_osu_to_bms_pipeline_exact_on_grid :
   forall (n : Z) (d : conv_desc) (lines : list Text.text) (a : cargs) (sm : meta) (k : nat) 
          (oracle : chart) (sz mk : Z) (lay : BMSSpec.slayout) (dflt : list Z) (p : bms_rest) 
          (rd : Q -> list Z),
@@ -543,8 +792,8 @@ Theorem C09_osu_to_bms_pipeline_partial :
             bms_target_concl mk lay dflt p rd r' (tl_shift (conv_shift d sz) (tl_of_osu dsrc))).
 Proof. exact osu_to_bms_pipeline. Qed.
 
-(* Quaver -> BMS (as above). *)
-Theorem C09_qua_to_bms_pipeline_partial :
+(* Quaver -> BMS, exact regime (as above). *)
+Theorem C09_qua_to_bms_pipeline_exact_on_grid :
   forall (n : Z) (d : conv_desc) (doc : Qua.ytree) (a : cargs) (sm : meta) (k : nat) 
          (oracle : chart) (sz mk : Z) (lay : BMSSpec.slayout) (dflt : list Z) (p : bms_rest) 
          (rd : Q -> list Z),
@@ -564,7 +813,7 @@ Theorem C09_qua_to_bms_pipeline_partial :
             bms_target_concl mk lay dflt p rd r' (tl_shift (conv_shift d sz) (tl_of_qua e))).
 Proof. exact qua_to_bms_pipeline. Qed.
 
-(* StepMania -> BMS, per chart (reader partiality sm_tempo_same + writer exact regime). *)
+(* StepMania -> BMS, per chart, GENERAL reader form (sm_tempo_same, see above) with the writer's exact regime. *)
 Theorem C09_sm_to_bms_pipeline_partial :
   forall (n : Z) (d : conv_desc) (txt : SMText.text) (a : cargs) (oracle : chart) (sz mk : Z)
          (lay : BMSSpec.slayout) (dflt : list Z) (p : bms_rest) (rd : Q -> list Z),
@@ -587,8 +836,8 @@ Theorem C09_sm_to_bms_pipeline_partial :
             bms_target_concl mk lay dflt p rd r' (tl_shift (conv_shift d sz) (tl_of_sm_chart ds dc))).
 Proof. exact sm_to_bms_pipeline. Qed.
 
-(* O2Jam -> BMS, per difficulty (writer exact regime). *)
-Theorem C09_o2j_to_bms_pipeline_partial :
+(* O2Jam -> BMS, per difficulty, exact regime (as above). *)
+Theorem C09_o2j_to_bms_pipeline_exact_on_grid :
   forall (n : Z) (d : conv_desc) (f : O2JSpec.ofile) (trail : list Z) (a : cargs) (sm : meta) 
          (oracle : chart) (sz mk : Z) (lay : BMSSpec.slayout) (dflt : list Z) (p : bms_rest) 
          (rd : Q -> list Z),
@@ -630,6 +879,22 @@ Example C09_writer_domains_nonvacuous :
                          && match BMSSpec.wscript C05.tbl (build_bms example_rows example_bms_rest) with
                             | Some l => bms_on_grid example_rows l | None => false end) Tables.bms.layouts = true.
 Proof. exact (conj example_osu_domain (conj example_sm_domain example_bms_domain)). Qed.
+
+(* (d) the guards of the StepMania / BMS source theorems hold on C02's / C04's witness texts (tempo changes on measure lines), and
+       (e) the BMS bound is not confined to the exact regime: a chart with a hit 1 ms after a beat and a long note ending 1 ms
+       after one lies in write_dom and is NOT bms_on_grid. *)
+Example C09_sm_source_guards_nonvacuous :
+  SMReadDom.c02_domb SMReadWitness.w_read_on_lines = true /\ SMReadDom.sm_tempo_on_lines SMReadWitness.w_read_on_lines = true.
+Proof. exact example_sm_on_lines. Qed.
+Example C09_bms_source_guards_nonvacuous :
+  BMSSpec.layout_ok Tables.bms.max_keys C04.lay_PMS && BMSSpec.wf_bms_lines C04.lay_PMS C04.w_on_lines
+  && BMSSpec.read_guards C04.tbl C04.w_on_lines && BMSGuards.bms_tempo_on_lines C04.w_on_lines = true.
+Proof. exact example_bms_on_lines. Qed.
+Example C09_bms_bound_beyond_exact_regime :
+  BMSSpec.write_dom C05.tbl Tables.bms.max_keys C04.lay_PMS [48; 49]%Z (build_bms example_rows_offgrid example_bms_rest) = true
+  /\ match BMSSpec.wscript C05.tbl (build_bms example_rows_offgrid example_bms_rest) with
+     | Some l => bms_on_grid example_rows_offgrid l | None => true end = false.
+Proof. exact example_bms_offgrid. Qed.
 
 (* ================= defects found, on real files: the OLD written file refuted, the current one accepted =================
    Each witness: a source file inside its format's domain and inside the composition's domain (wf_ok) with
